@@ -3,5 +3,6 @@ CONSTANT Depth = 4
 CONSTANT Shift = "4294966290"
 CONSTANT Win0 = 2
 CONSTANT Mms = 150
+CONSTANT Side = "client"
 INVARIANT Emit
 CHECK_DEADLOCK FALSE
